@@ -45,10 +45,26 @@ PROPS = {
         remainder=['FRI soundness theorem (proximity gaps) over the checked conjunction', 'prover side: fri_committed_trees, fri_proof_of_work, prove_openings',
                    'batch FRI verifier', 'reduction_arity_bits strategies'],
     ),
+    'C03': dict(
+        title='Accepted proofs are bound to each of their elements and to their circuit',
+        design_ref='DESIGN.md section 4 / C03',
+        vspecs=['contracts/C03/plonk_verifier.vspec', 'contracts/C05/fri_verifier.vspec', 'contracts/C18/fri_shape.vspec', 'contracts/C12/merkle_verify.vspec'],
+        level_text='Unbounded deductive proof (Verus/Z3) of the acceptance skeleton of the real verifier code: verify() returns Ok only if shape validation '
+                   'pinned every vector length to the circuit, the vanishing identity held for EVERY challenge index on the proof\'s own openings, '
+                   'challenges were derived from the public-input hash, the VERIFIER DATA\'s circuit digest and the common data, and the FRI opening '
+                   'proof was verified (every query round, every Merkle path, every fold, final polynomial, PoW, round count) against the caps '
+                   '[verifier_data.constants_sigmas_cap, wires_cap, zs_cap, quotient_cap] in that order. A verifier that stops checking one of these '
+                   'fails a named postcondition.',
+        level_note='Trusted: Verus+Z3; algebra callees as uninterpreted functions (T10); get_challenges contract assumed here and carried by C04; circuit data '
+                   'satisfy common_ok. The step from "every element is read by a check or absorbed" to "every change is rejected" is the '
+                   'soundness/collision argument (outside the family). Compressed proofs (decompress path, HashMap code) not covered.',
+        remainder=['compressed proofs: CompressedFriProof::decompress, get_inferred_elements (iterator/HashMap code outside the subset)',
+                   'the soundness/collision-resistance argument over the checked conjunction'],
+    ),
     'C18': dict(
         title='Verifiers and proof decoders fail cleanly on malformed input',
         design_ref='DESIGN.md section 4 / C18',
-        vspecs=['contracts/C18/fri_shape.vspec', 'contracts/C05/fri_verifier.vspec', 'contracts/C12/merkle_verify.vspec', 'contracts/C15/util_log2.vspec'],
+        vspecs=['contracts/C18/fri_shape.vspec', 'contracts/C05/fri_verifier.vspec', 'contracts/C03/plonk_verifier.vspec', 'contracts/C12/merkle_verify.vspec', 'contracts/C15/util_log2.vspec'],
         level_text='Unbounded deductive proof (Verus/Z3) that, with NO precondition on the proof value beyond its Rust type, FRI shape validation and the '
                    'FRI verifier reach no failing index, slice, subtraction, shift, unwrap or assertion: every such operation in the extracted '
                    'bodies is a discharged obligation, and shape validation is the only place allowed to establish length facts.',
